@@ -116,6 +116,9 @@ var embedded = []string{
 	"show databases", "show tables", "show full tables from db like 'x%'", "show create table t", "show columns from t", "show index from t",
 	"show variables like 'x'", "show session status", "show global variables where a = 1", "show collation", "show charset", "show engines", "show plugins",
 	"show processlist", "show create database d", "show vitess_shards", "show warnings", "show triggers", "show table status",
+	"show full columns from t", "show full fields from t from db", "show columns from t from db like 'x%'", "show tables from db", "show tables from db like 'x'", "show full tables where a = 1",
+	"show full processlist", "show collation where charset = 'utf8'", "show global status like 'x'", "show session variables like 'x'", "show vschema tables", "show vschema vindexes",
+	"show vitess_keyspaces", "show vitess_tablets", "show create view v", "show create procedure p", "show binary logs", "show keys from t", "show indexes from t",
 	// DDL
 	"create table t (a int, b varchar(10) not null default 'x', primary key (a))",
 	"create table t (a int unsigned zerofill auto_increment comment 'c', b decimal(10, 2), c enum('x', 'y'), d timestamp default current_timestamp on update current_timestamp, key k (b), unique key u (c), index i (a, b) using btree) engine=InnoDB default charset=utf8",
